@@ -5,6 +5,7 @@ from engines import check_required_steps
 from engines import check_complete_iteration
 from prov import Prov, params_of, field_names
 from props import codec
+from engines import error_blocks
 
 CLAIM = ("(TABLE) the magic bytes written by Ontology::metadata_as_bytes equal those compared by the reader, the written version byte is one of the "
          "reader's accepted arms and maps to a BinaryVersion for which every written section is read, the reader skips exactly magic+1 bytes; only "
@@ -399,3 +400,29 @@ def run(ck, prog, ctx):
                 prev = (kind, bi, t, val)
             if n_sec == 0:
                 ck.undecided("LAYOUT", "framing", "no (length prefix, payload) pair appended to the output in Ontology::as_bytes itself (framing done by a helper?)", where=ab.where())
+    # ---- reader side of the framing: a section header is 4 bytes, and the LAST section may be empty - then exactly 4 bytes remain.
+    # The function that reads a section length must neither demand nor read more than those 4 bytes.
+    fbr = prog.body(codec.ONT + "from_bytes")
+    if fbr is not None:
+        heads = []
+        for bi, t in fbr.calls():
+            g = prog.bodies.get(t.callee.res) if t.callee.res else None
+            if g is None or g.kind not in ("Fn", "AssocFn") or t.dest is None or not t.dest.is_local() or fbr.locals[t.dest.local]["s"] != "u32" or len(t.args) != 1:
+                continue
+            if params_of(pvn.of_operand(fbr, t.args[0]), fbr.id) != {1}:
+                continue
+            heads.append((bi, t, g))
+        for n, (bi, t, g) in enumerate(heads):
+            demand, fixed_end = layout.length_demand(prog, g, 1)
+            if fixed_end is None:
+                ck.undecided("LAYOUT", "framing-reader/header/%d" % n, "%s: the bytes read by %s are not recognised" % (fbr.short, g.short), where=fbr.where(t.line))
+                continue
+            # only a header that can be the LAST thing in the file is bounded by 4: the others are followed by at least another header
+            others = {b2 for b2, _, _ in heads if b2 != bi}
+            after = fbr.reachable_from(bi, avoid_blocks=others | error_blocks(fbr))
+            can_be_last = any(fbr.blocks[x].term.k == "return" for x in after)
+            room = 4 if can_be_last else 8
+            ok = demand <= room and fixed_end <= room
+            ck.ob("LAYOUT", "framing-reader/header/%d" % n, ok, "Ontology::from_bytes reads a section length with %s, which reads %d byte(s) and demands an input of at least %d byte(s)%s" % (
+                g.short, fixed_end, max(demand, fixed_end), "" if ok else (": an empty last section leaves exactly the 4 header bytes, so the library's own output is rejected" if can_be_last else ": more than this header and the next one")), where=fbr.where(t.line))
+        ck.floor("LAYOUT", "section headers read by Ontology::from_bytes", len(heads), 3)
